@@ -4,6 +4,10 @@ import json, os
 ROOT = os.path.dirname(os.path.dirname(os.path.abspath(__file__)))
 TRUST = "TLC 1.8 and the CommunityModules Json/IOUtils; the Rust harness (vh) that drives the public API of /repo's crates; rustc/cargo"
 CHECKS = {
+ "C14": ("DESIGN.md section 6 C14",
+         "Includes.tla (Flatten = directive kept + listed files flattened in order with (file, own line) provenance; Paste = textual inlining; first error in inclusion order) model-checked on every acyclic tree of the bounded builder; each tree is materialised on disk with rotating reference forms (relative, ./, .., absolute; directories with spaces) and parse_file is compared entry by entry, run_script_file with run_script of the pasted text; random 6-file trees recorded from parse_file are validated by TLC.",
+         "small-scope exhaustive on trees, sampled beyond; acyclic trees only",
+         "TLA+ spec + TLC exhaustive; spec->impl replay; impl->spec trace validation"),
  "C05": ("DESIGN.md section 6 C05",
          "Func.tla: builder-generated programs around one function (scoped or not; for-in / if-else / return with and without value / recursion in the body; calls with and without output variable, with arguments, in condition position); TLC checks that the goto machine (function call stack with saved scope, return / end function, depth-tagged for-in frames) refines the tree-walking reference in which every call starts afresh and a scoped call is isolated; every emitted program is run on the real SDK and compared (emit trace incl. the argument, final variables); larger random programs are validated by TLC against the reference.",
          "small-scope exhaustive on programs (<=7 lines quick, <=9 thorough), one function per program; sampled beyond; the property's two open corners are skipped",
